@@ -114,26 +114,20 @@ Theorem C02_replace_filter_sound : forall m fully new old loc fn,
   is_respecting m new loc fully = true.
 Proof. exact replace_filter_sound. Qed.
 
-(* _is_respecting still tests the RAW tuple against the sorted edge set: "respecting" has its intended meaning
-   only for a location listed in increasing order (C02_is_respecting_spec); otherwise refuted *)
-Definition C02_is_respecting_spec_full : Prop := forall m b loc fully,
-  is_respecting m b loc fully =
-    forallb (fun o => (List.length (oloc o) <? 2) || gmem (og o) (mgates m)) (cops b)
-    && (negb fully || forallb (fun o => (2 <=? List.length (oloc o)) || gmem (og o) (mgates m)) (cops b))
-    && forallb (fun e => coupled m (nth (fst e) loc 0) (nth (snd e) loc 0)) (circ_edges b).
-
-Theorem C02_is_respecting_location_refuted :
-  is_respecting ex_model ex_circ [1; 0] false = false /\ is_respecting ex_model ex_circ [0; 1] false = true
-  /\ coupled ex_model 1 0 = true.
-Proof. exact is_respecting_location_refuted. Qed.
-
-Theorem C02_is_respecting_spec_partial : forall m b loc fully,
-  forallb (fun e => nth (fst e) loc 0 <=? nth (snd e) loc 0) (circ_edges b) = true ->
+(* what "respecting" means: native multi-qudit gates (all gates when fully), every interacting pair of the block
+   coupled at its location -- for every block and every location (the model follows repo commit 4f34095; before it
+   the raw tuple was tested and the statement was refuted for locations not in increasing order) *)
+Theorem C02_is_respecting_spec : forall m b loc fully,
   is_respecting m b loc fully =
     forallb (fun o => (List.length (oloc o) <? 2) || gmem (og o) (mgates m)) (cops b)
     && (negb fully || forallb (fun o => (2 <=? List.length (oloc o)) || gmem (og o) (mgates m)) (cops b))
     && forallb (fun e => coupled m (nth (fst e) loc 0) (nth (snd e) loc 0)) (circ_edges b).
 Proof. exact is_respecting_spec. Qed.
+
+Example C02_is_respecting_location_example :
+  is_respecting ex_model ex_circ [1; 0] false = true /\ is_respecting ex_model ex_circ [0; 1] false = true
+  /\ is_respecting ex_model ex_circ [0; 2] false = false /\ coupled ex_model 1 0 = true.
+Proof. exact is_respecting_location_example. Qed.
 
 Example C02_filter_nonvacuous :
   let good := {| cw := 2; crad := [2; 2]; cops := [{| og := 0; oloc := [0; 1] |}] |} in
